@@ -12,7 +12,7 @@
 //   K name                                 replays of the known findings of the text route (see checks/C32.py)
 // types: S double, SF float, I int, B bool, C complex<double>, V3 Vec3, V2V3 Vec<2,Vec3>, M23 Mat<2,3>, M22 Mat22,
 //        R3 Row3, A Array_<double>, AV3 Array_<Vec3>, AC Array_<complex<double>>, VEC Vector_<double>,
-//        VV3 Vector_<Vec3>, AM22 Array_<Mat22>
+//        VV3 Vector_<Vec3>, AM22 Array_<Mat22>, V3F Vec<3,float>, AF Array_<float>, VECF Vector_<float>
 #include "SimTKcommon.h"
 #include <cstdio>
 #include <cstring>
@@ -84,7 +84,8 @@ template <class T> static void doRU(const std::string& text) {
 }
 #define TYPES(X) X("S",double) X("SF",float) X("C",std::complex<double>) X("V3",Vec3) X("V2V3",Vec<2 COMMA Vec3>) \
     X("M23",Mat<2 COMMA 3>) X("M22",Mat22) X("R3",Row3) X("A",Array_<double>) X("AV3",Array_<Vec3>) \
-    X("AC",Array_<std::complex<double> >) X("VEC",Vector_<double>) X("VV3",Vector_<Vec3>) X("AM22",Array_<Mat22>)
+    X("AC",Array_<std::complex<double> >) X("VEC",Vector_<double>) X("VV3",Vector_<Vec3>) X("AM22",Array_<Mat22>) \
+    X("V3F",Vec<3 COMMA float>) X("AF",Array_<float>) X("VECF",Vector_<float>)
 #define COMMA ,
 
 int main() {
